@@ -7,7 +7,12 @@ and evaluates the property monitor on the implementation's answers (`MONITOR`).
     failure payload.
 (S) the monitor recomputes, with exact unbounded integers and its own code (it does
     not call `Gen.*` nor `Spec.*`), whether each named rule holds on the inputs of
-    the line, and checks the property statement on the implementation's verdict.
+    the line, and checks the property statement on the implementation's answer.  The
+    answer judged is the FINAL wire failure (BOLT-4 code after NewLinkError /
+    NewDetailedLinkError / WireMessage / EncodeFailure, at switch level decoded from
+    the update_fail_htlc mailed to the incoming link): the code must name a rule the
+    (policy, cfg, inputs) violate, and an embedded channel_update must be one the
+    node's update sources returned for this channel during the evaluation.
 -/
 import LndModel.Prelude.Lines
 import LndModel.C09.Model
@@ -51,6 +56,15 @@ structure St where
   swMixed : Nat := 0           -- switch evaluations with both an admissible and a rejecting candidate
   swNotRequested : Nat := 0    -- forwarded over a link other than the requested one
   swNodeMode : Nat := 0
+  swViaAlias : Nat := 0        -- channel named by an alias
+  swViaConfirmed : Nat := 0    -- channel named by the confirmed scid of a zero-conf channel
+  swRejectHTLC : Nat := 0
+  updEmbedded : Nat := 0       -- failures carrying a channel_update
+  updDisabled : Nat := 0       -- … whose channel_flags have the disabled bit
+  updAlias : Nat := 0          -- … taken from FailAliasUpdate
+  updForeignScid : Nat := 0    -- … whose short channel id is not the link's
+  fetchErr : Nat := 0          -- evaluations where no channel_update can be obtained
+  vNodeFail : Nat := 0
   clauseCounts : List (String × Nat) := []   -- MONITOR lines printed per clause (capped per clause)
 
 def mismatch (s : St) (detail : String) : IO St := do
@@ -154,21 +168,76 @@ def surelyForwardable (isFwd : Bool) (r : Rules) : Bool :=
   (r.feeOk || !isFwd) && r.minOk && r.maxOk && r.soonOk && r.farOk && r.bwOk &&
     (r.deltaOk || !isFwd) && (r.dmaxOk || !isFwd) && (r.domFee || !isFwd) && r.domExp
 
-/-- candidate links of a switch-level line (scid := position on the line) with their exact rules -/
-def mkCands (inc out ein eout h ib ir : Int) (k : Nat) (b : List Int) (fuel : Nat) : List (Cand × Rules) :=
+/-- name of a BOLT-4 failure code (lnwire/onion_error.go) -/
+def baseOfCode (code : Int) : String :=
+  if code == 0 then "accept"
+  else if code == 4108 then "FeeInsufficient"
+  else if code == 4107 then "AmountBelowMinimum"
+  else if code == 4109 then "IncorrectCltvExpiry"
+  else if code == 4110 then "ExpiryTooSoon"
+  else if code == 21 then "ExpiryTooFar"
+  else if code == 4103 then "TemporaryChannelFailure"
+  else if code == 8194 then "TemporaryNodeFailure"
+  else if code == 16394 then "UnknownNextPeer"
+  else if code == 4116 then "ChannelDisabled"
+  else s!"code:{code}"
+
+/-- The answer the monitor judges: the name of the code that is on the wire, with the harness'
+    failure detail kept only when it belongs to that code. -/
+def wireName (impl : String) (code : Int) : String :=
+  let base := baseOfCode code
+  if impl == "accept" || impl == "panic" then impl
+  else if (impl.splitOn "/").head? == some base then impl else base
+
+/-- fingerprint of a channel_update on a line: present, scid, flags, digest -/
+structure UpdFp where
+  present : Bool
+  scid : Int
+  flags : Int
+  digest : Int
+  deriving BEq
+
+def UpdFp.toUpd (u : UpdFp) : Option Upd :=
+  if u.present then some ⟨u.scid.toNat, u.flags.toNat, u.digest.toNat⟩ else none
+
+def UpdFp.ofUpd : Option Upd → UpdFp
+  | some u => ⟨true, u.scid, u.flags, u.digest⟩
+  | none => ⟨false, 0, 0, 0⟩
+
+def UpdFp.str (u : UpdFp) : String :=
+  if u.present then s!"(scid {u.scid} flags {u.flags} digest {u.digest})" else "(none)"
+
+def mkFp (xs : List Int) : UpdFp :=
+  match xs with
+  | [e, a, b, c] => ⟨e != 0, a, b, c⟩
+  | _ => ⟨false, 0, 0, 0⟩
+
+/-- candidate links of a switch-level line with their exact rules and update fixture
+    (per link: elig unadv scid min max base rate tld rej maxcltv bw f f_scid f_fl f_dg) -/
+def mkCands (inc out ein eout h ib ir : Int) (b : List Int) (fuel : Nat) :
+    List (Cand × Rules × UpdFp) :=
   match fuel, b with
-  | fuel + 1, e :: mn :: mx :: ba :: ra :: tl :: rj :: mc :: bw :: tail =>
-    (⟨k, e != 0, ⟨mn.toNat, mx.toNat, ba.toNat, ra.toNat, tl.toNat⟩, ⟨rj.toNat, mc.toNat, bw.toNat⟩⟩,
-     mkRules mn mx ba ra tl rj mc bw inc out ein eout h ib ir) :: mkCands inc out ein eout h ib ir (k + 1) tail fuel
+  | fuel + 1, e :: ua :: sc :: mn :: mx :: ba :: ra :: tl :: rj :: mc :: bw :: f :: fs :: ff :: fd :: tail =>
+    let fp : UpdFp := ⟨f != 0, fs, ff, fd⟩
+    ({ scid := sc.toNat, eligible := e != 0, p := ⟨mn.toNat, mx.toNat, ba.toNat, ra.toNat, tl.toNat⟩,
+       c := ⟨rj.toNat, mc.toNat, bw.toNat⟩, peer := 0, unadvertised := ua != 0, fetched := fp.toUpd },
+     mkRules mn mx ba ra tl rj mc bw inc out ein eout h ib ir, fp) :: mkCands inc out ein eout h ib ir tail fuel
   | _, _ => []
 
+/-- codes whose failure message is built by `createFailureWithUpdate` from the channel's update -/
+def carriesChannelUpdate (code : Int) : Bool :=
+  code == 4103 || code == 4107 || code == 4108 || code == 4109 || code == 4110
+
 /-- The property monitor for one decision. `isFwd = false`: locally sourced HTLC
-    (no fee / cltv-delta rules). -/
+    (no fee / cltv-delta rules). `updAvail`: a channel_update for the channel could be obtained
+    during the evaluation; `fwdDisabled`: forwarding is switched off (cfg.RejectHTLC). -/
 def monitorDecision (s : St) (isFwd : Bool) (r : Rules) (impl : String) (desc : String)
-    (pre : String := "") : IO St := do
+    (pre : String := "") (updAvail : Bool := true) (fwdDisabled : Bool := false) : IO St := do
   let feeTag := if r.inbOverflow then "+inbound-overflow" else ""
   let known := ["accept", "FeeInsufficient", "AmountBelowMinimum", "TemporaryChannelFailure/HtlcExceedsMax",
-    "ExpiryTooSoon", "ExpiryTooFar", "TemporaryChannelFailure/InsufficientBalance", "IncorrectCltvExpiry"]
+    "ExpiryTooSoon", "ExpiryTooFar", "TemporaryChannelFailure/InsufficientBalance", "IncorrectCltvExpiry",
+    "TemporaryChannelFailure", "TemporaryChannelFailure/none", "TemporaryNodeFailure",
+    "ChannelDisabled", "ChannelDisabled/ForwardsDisabled", "ChannelDisabled/other"]
   if ¬ known.contains impl then
     return ← monitor s s!"{pre}unexpected-failure" s!"verdict {impl} names no forwarding rule: {desc}"
   let feeOk := r.feeOk || !isFwd
@@ -177,6 +246,8 @@ def monitorDecision (s : St) (isFwd : Bool) (r : Rules) (impl : String) (desc : 
   let allOk := feeOk && r.minOk && r.maxOk && r.soonOk && r.farOk && r.bwOk && deltaOk && dmaxOk
   let domFee := r.domFee || !isFwd
   if impl == "accept" then
+    if fwdDisabled then
+      return ← monitor s s!"{pre}forwarded-although-forwards-disabled" s!"accepted with RejectHTLC set: {desc}"
     -- accept_sound: every rule must hold (wrap-prone rules only inside their realistic domain)
     if !feeOk && domFee then
       return ← monitor s s!"accept-sound-fee{feeTag}" s!"accepted although incoming-outgoing < required fee {r.req}: {desc}"
@@ -190,6 +261,19 @@ def monitorDecision (s : St) (isFwd : Bool) (r : Rules) (impl : String) (desc : 
     if !deltaOk then return ← monitor s "accept-sound-cltv-delta" s!"accepted although expiry gap < time_lock_delta: {desc}"
     if !dmaxOk then return ← monitor s "accept-sound-cltv-delta-max" s!"accepted although expiry gap > maxCltv: {desc}"
     return s
+  -- channel_disabled names "forwarding is disabled": none of the link's rules
+  if impl.startsWith "ChannelDisabled" then
+    if fwdDisabled then return s
+    if allOk && domFee && r.domExp then
+      return ← monitor s s!"{pre}accept-complete" s!"every rule holds (required fee {r.req}) but rejected with {impl}: {desc}"
+    return ← monitor s s!"{pre}reject-names-violated-rule" s!"{impl} (channel_disabled) on the wire, but forwarding is not disabled and no rule of the link is named (required fee {r.req}): {desc}"
+  -- temporary_node_failure names no rule: only when no channel_update is available for a rejected htlc
+  if impl == "TemporaryNodeFailure" then
+    if updAvail then
+      return ← monitor s s!"{pre}reject-names-violated-rule" s!"temporary_node_failure although a channel_update was available (required fee {r.req}): {desc}"
+    if allOk && domFee && r.domExp then
+      return ← monitor s s!"{pre}accept-complete{feeTag}" s!"every rule holds (required fee {r.req}) but rejected with {impl}: {desc}"
+    return s
   -- a rejection: the named rule must really be violated
   let (namedOk, inDomain, tag) : Bool × Bool × String := match impl with
     | "FeeInsufficient" => (feeOk, domFee && isFwd, feeTag)
@@ -198,6 +282,7 @@ def monitorDecision (s : St) (isFwd : Bool) (r : Rules) (impl : String) (desc : 
     | "ExpiryTooSoon" => (r.soonOk, r.domExp, "")
     | "ExpiryTooFar" => (r.farOk && dmaxOk, r.domExp, "")
     | "TemporaryChannelFailure/InsufficientBalance" => (r.bwOk, true, "")
+    | "TemporaryChannelFailure" | "TemporaryChannelFailure/none" => (r.maxOk && r.bwOk, true, "")
     | "IncorrectCltvExpiry" => (deltaOk, isFwd, "")
     | _ => (false, false, "")
   if impl == "FeeInsufficient" && !isFwd then
@@ -210,11 +295,59 @@ def monitorDecision (s : St) (isFwd : Bool) (r : Rules) (impl : String) (desc : 
     return ← monitor s s!"{pre}reject-names-violated-rule{tag}" s!"{impl} but that rule holds (required fee {r.req}): {desc}"
   return s
 
-def verdictOfLine (res : List String) : String × Int :=
+/-- The channel_update embedded in a policy failure must be one the node's update sources
+    returned for this channel during the evaluation (`extraScid`: a short channel id the update
+    may legitimately be re-labelled with — the alias the sender used). -/
+def monitorEmbedded (s : St) (code : Int) (emb : UpdFp) (sources : List UpdFp) (extraScid : Option Int)
+    (desc : String) (pre : String := "") : IO St := do
+  if !carriesChannelUpdate code || !emb.present then return s
+  let ok := sources.any fun u => u.present && u.flags == emb.flags && u.digest == emb.digest &&
+    (u.scid == emb.scid || extraScid == some emb.scid)
+  if ok then return s
+  monitor s s!"{pre}failure-embeds-foreign-update" s!"the failure carries channel_update {emb.str}, the node's sources returned {sources.filter (·.present) |>.map (·.str)}: {desc}"
+
+def countEmbedded (s : St) (emb alias : UpdFp) (selfScidKnown : Option Int) : St :=
+  if !emb.present then s else
+  let s := { s with updEmbedded := s.updEmbedded + 1 }
+  let s := if (emb.flags % 256) / 2 % 2 == 1 then { s with updDisabled := s.updDisabled + 1 } else s
+  let s := if alias.present && alias == emb then { s with updAlias := s.updAlias + 1 } else s
+  match selfScidKnown with
+  | some k => if emb.scid != k then { s with updForeignScid := s.updForeignScid + 1 } else s
+  | none => s
+
+structure Res where
+  impl : String
+  payload : Int
+  code : Int
+  emb : UpdFp
+  calls : Int
+
+/-- `VERDICT payload code e e_scid e_fl e_dg [calls]` -/
+def resOfLine (res : List String) : Res :=
   match res with
-  | v :: p :: _ => (v, (int? p).getD (-2))
-  | [v] => (v, -2)
-  | [] => ("?", -2)
+  | v :: rest =>
+    let xs := rest.map fun w => (int? w).getD (-2)
+    { impl := v, payload := xs.getD 0 (-2), code := xs.getD 1 (-2),
+      emb := mkFp ((xs.drop 2).take 4), calls := xs.getD 6 (-2) }
+  | [] => { impl := "?", payload := -2, code := -2, emb := ⟨false, 0, 0, 0⟩, calls := -2 }
+
+/-- expected `aliasCalls + 10*fetchCalls` of a link-level evaluation -/
+def expectedCalls (e : Option LinkError) (v : Verdict) (alias : Option Upd) : Int :=
+  match e with
+  | none => 0
+  | some _ => if v.carriesUpdate then (if alias.isSome then 1 else 11) else 0
+
+/-- compare a model `*LinkError` with the implementation's final wire failure -/
+def leDiff (e : Option LinkError) (r : Res) (cmpUpd : Bool := true) : Option String :=
+  match e with
+  | none => if r.impl == "accept" then none else some s!"model=accept impl={r.impl}"
+  | some e =>
+    let w := Gen.finalWire e
+    let embM := UpdFp.ofUpd w.upd
+    if e.wire != r.impl || w.payload != r.payload || (w.code : Int) != r.code ||
+        (cmpUpd && !(embM == r.emb)) then
+      some s!"model={e.wire} {w.payload} code {w.code} upd {embM.str} impl={r.impl} {r.payload} code {r.code} upd {r.emb.str}"
+    else none
 
 def step (s : St) (line : String) : IO St := do
   let s := { s with lines := s.lines + 1 }
@@ -236,45 +369,43 @@ def step (s : St) (line : String) : IO St := do
   | "fwd" :: rest =>
     let (args, res) := splitArrow rest
     let some xs := ints? args | mismatch s "fwd: bad integer"
-    match xs with
+    if xs.length != 23 then return ← mismatch s s!"fwd: expected 23 integers :: {line.take 80}"
+    let aliasFp := mkFp ((xs.drop 15).take 4)
+    let fetchFp := mkFp ((xs.drop 19).take 4)
+    match xs.take 15 with
     | [min, max, base, rate, tld, rej, maxcltv, bw, inc, out, ein, eout, h, ib, ir] =>
-      let (impl, payload) := verdictOfLine res
+      let rr := resOfLine res
+      let impl := rr.impl
       let s := countVerdict { s with evals := s.evals + 1, fwd := s.fwd + 1 } impl
       let p : Policy := ⟨min.toNat, max.toNat, base.toNat, rate.toNat, tld.toNat⟩
       let c : Cfg := ⟨rej.toNat, maxcltv.toNat, bw.toNat⟩
       let i : Inputs := ⟨inc.toNat, out.toNat, ein.toNat, eout.toNat, h.toNat, ib, ir⟩
-      -- (X) correspondence with the Go-semantics model
+      -- (X) correspondence with the Go-semantics model: verdict, payload, wire code, embedded update,
+      --     calls of the two update sources
       let g := Gen.checkHtlcForward p c i
+      let le := Gen.checkHtlcForwardLE p c i aliasFp.toUpd fetchFp.toUpd
       let mut s := s
-      if g.wire != impl || (impl != "accept" && g.payload i != payload) then
-        s ← mismatch s s!"fwd: model={g.wire} {g.payload i} impl={impl} {payload} :: {line}"
-      -- (S) monitor with exact integers
-      let outFee : Int := base + truncDiv (out * rate) 1000000
-      let x : Int := out + outFee
-      let inFee : Int := ib + truncDiv (clampM ir * x) 1000000
-      let req : Int := inFee + outFee
-      let domFee := decide (inc ≤ 10000000000000) && decide (out ≤ 10000000000000) &&
-        decide (base < 4294967296) && decide (rate ≤ 1000000) && isI32 ib && isI32 ir
-      let domExp := decide (h < 2147483648) && decide (eout < 2147483648) &&
-        decide (rej < 2147483648) && decide (maxcltv < 2147483648)
-      let r : Rules := {
-        feeOk := decide (out ≤ inc) && decide (req ≤ inc - out)
-        minOk := decide (min ≤ out)
-        maxOk := decide (max = 0) || decide (out ≤ max)
-        soonOk := decide (h + rej < eout)
-        farOk := decide (eout ≤ h + maxcltv)
-        bwOk := decide (out ≤ bw)
-        deltaOk := decide (tld ≤ ein - eout)
-        dmaxOk := decide (ein - eout ≤ maxcltv)
-        domFee := domFee
-        domExp := domExp
-        inbOverflow := domFee && decide (absI (clampM ir) * x ≥ 9223372036854775808)
-        req := req }
+      match leDiff le rr with
+      | some d => s ← mismatch s s!"fwd: {d} :: {line}"
+      | none =>
+        if rr.calls != expectedCalls le g aliasFp.toUpd then
+          s ← mismatch s s!"fwd: update sources called {rr.calls}, model {expectedCalls le g aliasFp.toUpd} :: {line}"
+      -- (S) monitor with exact integers, on the final wire failure
+      let r := mkRules min max base rate tld rej maxcltv bw inc out ein eout h ib ir
+      let req := r.req
+      let domFee := r.domFee
+      let domExp := r.domExp
+      let updAvail := aliasFp.present || fetchFp.present
+      let implW := wireName impl rr.code
       if impl == "accept" && inc < out then
         s ← monitor s "never-loses-money" s!"accepted incoming={inc} < outgoing={out} :: {line}"
       else
-        s ← monitorDecision s true r impl line
+        s ← monitorDecision s true r implW line "" updAvail
+      s ← monitorEmbedded s rr.code rr.emb [aliasFp, fetchFp] none line
       -- statistics
+      s := countEmbedded s rr.emb aliasFp none
+      if !updAvail then s := { s with fetchErr := s.fetchErr + 1 }
+      if implW == "TemporaryNodeFailure" then s := { s with vNodeFail := s.vNodeFail + 1 }
       let allOk := r.feeOk && r.minOk && r.maxOk && r.soonOk && r.farOk && r.bwOk && r.deltaOk && r.dmaxOk
       let nViol := [r.feeOk, r.minOk, r.maxOk, r.soonOk, r.farOk, r.bwOk, r.deltaOk, r.dmaxOk].countP (!·)
       let exactAccept := allOk
@@ -290,21 +421,29 @@ def step (s : St) (line : String) : IO St := do
         IO.println s!"SAMPLE {line} | model={g.wire} requiredFee={req}"
         s := { s with samples := s.samples + 1 }
       return s
-    | _ => mismatch s s!"fwd: expected 15 integers :: {line.take 80}"
+    | _ => mismatch s s!"fwd: expected 23 integers :: {line.take 80}"
   | "tr" :: rest =>
     let (args, res) := splitArrow rest
     let some xs := ints? args | mismatch s "tr: bad integer"
-    match xs with
+    if xs.length != 19 then return ← mismatch s s!"tr: expected 19 integers :: {line.take 80}"
+    let aliasFp := mkFp ((xs.drop 11).take 4)
+    let fetchFp := mkFp ((xs.drop 15).take 4)
+    match xs.take 11 with
     | [min, max, base, rate, tld, rej, maxcltv, bw, out, eout, h] =>
-      let (impl, payload) := verdictOfLine res
+      let rr := resOfLine res
+      let impl := rr.impl
       let s := countVerdict { s with evals := s.evals + 1, tr := s.tr + 1 } impl
       let p : Policy := ⟨min.toNat, max.toNat, base.toNat, rate.toNat, tld.toNat⟩
       let c : Cfg := ⟨rej.toNat, maxcltv.toNat, bw.toNat⟩
       let g := Gen.checkHtlcTransit p c out.toNat eout.toNat h.toNat
       let i : Inputs := ⟨0, out.toNat, 0, eout.toNat, h.toNat, 0, 0⟩
+      let le := Gen.checkHtlcTransitLE p c out.toNat eout.toNat h.toNat aliasFp.toUpd fetchFp.toUpd
       let mut s := s
-      if g.wire != impl || (impl != "accept" && g.payload i != payload) then
-        s ← mismatch s s!"tr: model={g.wire} {g.payload i} impl={impl} {payload} :: {line}"
+      match leDiff le rr with
+      | some d => s ← mismatch s s!"tr: {d} :: {line}"
+      | none =>
+        if rr.calls != expectedCalls le g aliasFp.toUpd then
+          s ← mismatch s s!"tr: update sources called {rr.calls}, model {expectedCalls le g aliasFp.toUpd} :: {line}"
       let domExp := decide (h < 2147483648) && decide (eout < 2147483648) &&
         decide (rej < 2147483648) && decide (maxcltv < 2147483648)
       let r : Rules := {
@@ -315,74 +454,111 @@ def step (s : St) (line : String) : IO St := do
         farOk := decide (eout ≤ h + maxcltv)
         bwOk := decide (out ≤ bw)
         domExp := domExp }
-      s ← monitorDecision s false r impl line
+      let updAvail := aliasFp.present || fetchFp.present
+      let implW := wireName impl rr.code
+      s ← monitorDecision s false r implW line "" updAvail
+      s ← monitorEmbedded s rr.code rr.emb [aliasFp, fetchFp] none line
+      s := countEmbedded s rr.emb aliasFp none
+      if !updAvail then s := { s with fetchErr := s.fetchErr + 1 }
+      if implW == "TemporaryNodeFailure" then s := { s with vNodeFail := s.vNodeFail + 1 }
+      let _ := i
       let nViol := [r.minOk, r.maxOk, r.soonOk, r.farOk, r.bwOk].countP (!·)
       if nViol ≤ 1 then s := { s with nontrivial := s.nontrivial + 1 }
       if domExp then s := { s with inDom := s.inDom + 1 }
       if (g == .accept) != (nViol == 0) then s := { s with wrapAffected := s.wrapAffected + 1 }
       return s
-    | _ => mismatch s s!"tr: expected 11 integers :: {line.take 80}"
+    | _ => mismatch s s!"tr: expected 19 integers :: {line.take 80}"
   | "sw" :: rest | "swl" :: rest =>
     let isLocal := ws.head? == some "swl"
     let (args, res) := splitArrow rest
     let some xs := ints? args | mismatch s "sw: bad integer"
     -- header
-    let hdrLen := if isLocal then 5 else 10
+    let hdrLen := if isLocal then 8 else 15
     if xs.length < hdrLen then return ← mismatch s s!"sw: short line :: {line.take 80}"
     let hdr := xs.take hdrLen
     let body := xs.drop hdrLen
     let g (k : Nat) : Int := hdr.getD k 0
-    let (mode, req, h, inc, out, ein, eout, ib, ir, n) : Int × Int × Int × Int × Int × Int × Int × Int × Int × Int :=
-      if isLocal then (0, g 0, g 1, 0, g 2, 0, g 3, 0, 0, g 4)
-      else (g 0, g 1, g 2, g 3, g 4, g 5, g 6, g 7, g 8, g 9)
-    if body.length != 9 * n.toNat then return ← mismatch s s!"sw: expected {9 * n.toNat} link integers :: {line.take 80}"
-    let (chosen, impl, payload) : Int × String × Int := match res with
-      | c :: v :: p :: _ => ((int? c).getD (-3), v, (int? p).getD (-2))
-      | _ => (-3, "?", -2)
+    -- sw : mode req via rjh h in out ein eout ib ir orig ia bi n
+    -- swl: req via h out eout orig bi n
+    let (mode, req, via, rjh, h, inc, out, ein, eout, ib, ir, orig, ia, bi, n) :
+        Int × Int × Int × Int × Int × Int × Int × Int × Int × Int × Int × Int × Int × Int × Int :=
+      if isLocal then (0, g 0, g 1, 0, g 2, 0, g 3, 0, g 4, 0, 0, g 5, 0, g 6, g 7)
+      else (g 0, g 1, g 2, g 3, g 4, g 5, g 6, g 7, g 8, g 9, g 10, g 11, g 12, g 13, g 14)
+    if body.length != 15 * n.toNat then return ← mismatch s s!"sw: expected {15 * n.toNat} link integers :: {line.take 80}"
+    let (chosen, rr) : Int × Res := match res with
+      | c :: rest => ((int? c).getD (-3), resOfLine rest)
+      | _ => (-3, resOfLine [])
+    let impl := rr.impl
     let i : Inputs := ⟨inc.toNat, out.toNat, ein.toNat, eout.toNat, h.toNat, ib, ir⟩
-    -- candidate links (scid := position on the line)
-    let cr := mkCands inc out ein eout h ib ir 0 body n.toNat
+    -- candidate links = all links to the next peer, with their exact rules
+    let cr := mkCands inc out ein eout h ib ir body n.toNat
     let cands := cr.map (·.1)
+    let base : Option Nat := if bi < 0 then none else some bi.toNat
     let mut s := { s with evals := s.evals + 1 }
     s := if isLocal then { s with swLocal := s.swLocal + 1 } else { s with sw := s.sw + 1 }
     if mode == 1 then s := { s with swNodeMode := s.swNodeMode + 1 }
-    -- (X) model: set of admissible links / expected failure
+    if via == 1 then s := { s with swViaAlias := s.swViaAlias + 1 }
+    if via == 2 then s := { s with swViaConfirmed := s.swViaConfirmed + 1 }
+    if rjh == 1 then s := { s with swRejectHTLC := s.swRejectHTLC + 1 }
+    -- (X) model: set of admissible links / expected failure with its final wire form
+    let resolved : Option Cand :=
+      if isLocal then
+        (match cands.find? (fun l => l.scid = orig.toNat) with
+         | some l => some l
+         | none => base.bind fun b => cands.find? (fun l => l.scid = b))
+      else if mode == 1 then none
+      else (Gen.getLinkByMapping (ia == 1) base orig.toNat cands).map (·.1)
+    let outcome (r : Nat) : SwOutcome :=
+      if isLocal then Gen.getLocalLinkMapped base orig.toNat cands out.toNat eout.toNat h.toNat
+      else Gen.handlePacketAddFull (rjh == 1) (mode == 1) 0 (ia == 1) base orig.toNat cands r i
     let admissible : List Nat :=
-      if isLocal then
-        match cands[req.toNat]? with
-        | some l => (match Gen.getLocalLink (some l) out.toNat eout.toNat h.toNat with
-                     | .forward k => [k] | .fail _ => [])
+      if isLocal then (match outcome 0 with | .forward k => [k] | .fail _ => [])
+      else if rjh == 1 then []
+      else if mode == 1 then (Gen.scanLinks cands i).dests.map (·.scid)
+      else match resolved with
+        | some _ => (Gen.scanLinks cands i).dests.map (·.scid)
         | none => []
-      else (Gen.scanLinks cands i).dests.map (·.scid)
-    let modelFail : Option SwFailure :=
-      if isLocal then
-        (match Gen.getLocalLink (if req < 0 then none else cands[req.toNat]?) out.toNat eout.toNat h.toNat with
-         | .fail f => some f | .forward _ => none)
-      else
-        (match Gen.handlePacketAdd (mode == 1) req.toNat cands 0 i with
-         | .fail f => some f | .forward _ => none)
+    let chosenScid : Option Nat := if chosen < 0 then none else (cands[chosen.toNat]?).map (·.scid)
     if impl == "accept" then
       s := { s with swForwarded := s.swForwarded + 1 }
-      if chosen < 0 || !admissible.contains chosen.toNat then
-        s ← mismatch s s!"sw: impl forwarded over link {chosen}, model admits {admissible} :: {line}"
+      match chosenScid with
+      | some k =>
+        if !admissible.contains k then
+          s ← mismatch s s!"sw: impl forwarded over link {chosen} (scid {k}), model admits scids {admissible} :: {line}"
+      | none => s ← mismatch s s!"sw: impl forwarded over link {chosen}, model admits scids {admissible} :: {line}"
     else
-      match modelFail with
-      | some f =>
-        if f.wire != impl || f.payload i != payload || chosen != -1 then
-          s ← mismatch s s!"sw: model={f.wire} {f.payload i} impl={impl} {payload} chosen={chosen} :: {line}"
-      | none => s ← mismatch s s!"sw: impl failed with {impl}, model forwards over one of {admissible} :: {line}"
+      match outcome 0 with
+      | .fail f =>
+        let upd : Option Upd := match resolved with
+          | some t => if isLocal then t.fetched else Gen.failureUpdate (ia == 1) base orig.toNat t
+          | none => none
+        let e := f.toLinkError i upd
+        -- the zero-valued update inside FailChannelDisabled{} is not modelled
+        match leDiff (some e) rr (cmpUpd := rr.code != 4116) with
+        | some d => s ← mismatch s s!"sw: {d} chosen={chosen} :: {line}"
+        | none => if chosen != -1 then s ← mismatch s s!"sw: failed but link {chosen} received the add :: {line}"
+      | .forward _ => s ← mismatch s s!"sw: impl failed with {impl}, model forwards over one of {admissible} :: {line}"
     -- (S) monitor, exact integers, independent of Gen
     let isFwd := !isLocal
-    let okIdx := (cr.filter (fun (c, r) => c.eligible && surelyForwardable isFwd r)).map (·.1.scid)
-    let anyReject := cr.any (fun (c, r) => !c.eligible || (firstViolated isFwd r).isSome)
+    let implW := wireName impl rr.code
+    let reqLink : Option (Cand × Rules × UpdFp) := if req < 0 then none else cr[req.toNat]?
+    -- may the sender name the channel this way?  Not by the confirmed scid of an unadvertised
+    -- channel that negotiated scid aliases (the id is in baseIndex and is not an alias).
+    let mayName := match reqLink with
+      | some (c, _, _) => isLocal || ia == 1 || !c.unadvertised || bi < 0
+      | none => mode == 1
+    let okIdx := (cr.zipIdx.filter (fun ((c, r, _), _) => c.eligible && surelyForwardable isFwd r)).map (·.2)
+    let anyReject := cr.any (fun (c, r, _) => !c.eligible || (firstViolated isFwd r).isSome)
     if !okIdx.isEmpty && anyReject then s := { s with swMixed := s.swMixed + 1, nontrivial := s.nontrivial + 1 }
     if impl == "accept" then
       match (if chosen < 0 then none else cr[chosen.toNat]?) with
       | none =>
         s ← monitor s "forwarded-to-no-or-many-links" s!"accepted but the add reached {chosen} :: {line}"
-      | some (c, r) =>
+      | some (c, r, _) =>
         if req ≥ 0 && chosen != req then s := { s with swNotRequested := s.swNotRequested + 1 }
-        if isLocal && chosen != req then
+        if rjh == 1 then
+          s ← monitor s "forwarded-although-forwards-disabled" s!"RejectHTLC is set but the add was handed to link {chosen} :: {line}"
+        else if isLocal && chosen != req then
           s ← monitor s "local-forward-over-other-link" s!"locally sourced htlc for link {req} handed to link {chosen} :: {line}"
         else if !c.eligible then
           s ← monitor s "forwarded-over-rejecting-link" s!"add handed to link {chosen}, which is not eligible to forward (links admissible by exact rules: {okIdx}) :: {line}"
@@ -391,18 +567,29 @@ def step (s : St) (line : String) : IO St := do
           | some (rule, tag) =>
             s ← monitor s s!"forwarded-over-rejecting-link{tag}" s!"add handed to link {chosen} whose own policy rejects it (rule {rule}, required fee {r.req}; links admissible by exact rules: {okIdx}) :: {line}"
           | none => pure ()
+    else if rjh == 1 then
+      if !implW.startsWith "ChannelDisabled" then
+        s ← monitor s "switch-reject-names-violated-rule" s!"forwarding is disabled (RejectHTLC) but the failure is {implW} :: {line}"
     else
-      if !okIdx.isEmpty && (isFwd || okIdx.contains req.toNat) then
-        s ← monitor s "switch-rejects-forwardable" s!"failed with {impl} although links {okIdx} are eligible and satisfy every rule :: {line}"
+      if !okIdx.isEmpty && mayName && (isFwd || okIdx.contains req.toNat) then
+        s ← monitor s "switch-rejects-forwardable" s!"failed with {implW} although links {okIdx} are eligible and satisfy every rule :: {line}"
       else if mode == 0 && n > 0 then
-        match (if req < 0 then none else cr[req.toNat]?) with
+        match reqLink with
         | none => pure ()
-        | some (c, r) =>
-          if impl == "UnknownNextPeer/LinkNotEligible" || impl == "TemporaryChannelFailure/LinkNotEligible" then
+        | some (c, r, fp) =>
+          if implW == "UnknownNextPeer/LinkNotEligible" || implW == "TemporaryChannelFailure/LinkNotEligible" then
             if c.eligible then
-              s ← monitor s "switch-reject-names-violated-rule" s!"{impl} but the requested link {req} is eligible :: {line}"
+              s ← monitor s "switch-reject-names-violated-rule" s!"{implW} but the requested link {req} is eligible :: {line}"
+          else if implW == "UnknownNextPeer" then
+            if mayName then
+              s ← monitor s "switch-reject-names-violated-rule" s!"unknown_next_peer although id {orig} names the registered link {req} :: {line}"
           else if c.eligible then
-            s ← monitorDecision s isFwd r impl line "switch-"
+            s ← monitorDecision s isFwd r implW line "switch-" fp.present
+            s ← monitorEmbedded s rr.code rr.emb [fp] (some orig) line "switch-"
+            s := countEmbedded s rr.emb ⟨false, 0, 0, 0⟩ none
+            if implW == "TemporaryNodeFailure" then s := { s with vNodeFail := s.vNodeFail + 1 }
+          else
+            s ← monitor s "switch-reject-names-violated-rule" s!"{implW} although the requested link {req} is not eligible to forward :: {line}"
     return s
   | "efee" :: rest =>
     let (args, res) := splitArrow rest
@@ -464,6 +651,14 @@ def main : IO Unit := do
   IO.println s!"STAT switch_forward_evals={s.sw}"
   IO.println s!"STAT switch_local_evals={s.swLocal}"
   IO.println s!"STAT switch_node_addressed={s.swNodeMode}"
+  IO.println s!"STAT switch_named_by_alias={s.swViaAlias}"
+  IO.println s!"STAT switch_named_by_confirmed_scid={s.swViaConfirmed}"
+  IO.println s!"STAT switch_reject_htlc={s.swRejectHTLC}"
+  IO.println s!"STAT failures_with_channel_update={s.updEmbedded}"
+  IO.println s!"STAT failures_with_disabled_channel_update={s.updDisabled}"
+  IO.println s!"STAT failures_with_alias_update={s.updAlias}"
+  IO.println s!"STAT evaluations_without_channel_update={s.fetchErr}"
+  IO.println s!"STAT v_temporary_node_failure={s.vNodeFail}"
   IO.println s!"STAT switch_forwarded={s.swForwarded}"
   IO.println s!"STAT switch_mixed_candidates={s.swMixed}"
   IO.println s!"STAT switch_forwarded_over_other_than_requested={s.swNotRequested}"
